@@ -18,12 +18,18 @@ from vlib import Check, RunnerPool, compile_job, driver, log, REPO
 # ---------------------------------------------------------------------------------------------
 # units (independent re-statement of the CSS ratios, used by the python-side oracle only)
 # ---------------------------------------------------------------------------------------------
-LEN_ABS = {"px": F(1), "in": F(96), "cm": F(9600, 254), "mm": F(960, 254), "pt": F(4, 3)}
-ANG = {"deg": F(1), "turn": F(360)}
+# std::f64::consts::PI, exactly (the constant grass's table is built from; the Lean model's `piF`)
+PI_F = F(884279719003555, 2 ** 48)
+LEN_ABS = {"px": F(1), "in": F(96), "cm": F(9600, 254), "mm": F(960, 254), "pt": F(4, 3), "q": F(240, 254), "pc": F(16)}
+ANG = {"deg": F(1), "turn": F(360), "grad": F(9, 10), "rad": F(180) / PI_F}
 TIME = {"s": F(1), "ms": F(1, 1000)}
+FREQ = {"hz": F(1), "khz": F(1000)}
+RES = {"dppx": F(1), "dpi": F(1, 96), "dpcm": F(254, 9600)}
 REL = ["em", "rem", "vw", "%"]
-UNITS = list(LEN_ABS) + list(ANG) + list(TIME) + REL
-FAMILY = {"len": list(LEN_ABS) + REL, "ang": list(ANG), "time": list(TIME), "num": [""]}
+UNITS = list(LEN_ABS) + list(ANG) + list(TIME) + list(FREQ) + list(RES) + REL
+FAMILY = {"len": list(LEN_ABS) + REL, "ang": list(ANG), "time": list(TIME), "freq": list(FREQ), "res": list(RES),
+          "num": [""]}
+NEW_UNITS = {"q", "pc", "grad", "rad", "hz", "khz", "dpi", "dpcm", "dppx"}     # added in round 3
 
 
 def group(u):
@@ -36,16 +42,22 @@ def group(u):
         return "ang"
     if u in TIME:
         return "time"
+    if u in FREQ:
+        return "freq"
+    if u in RES:
+        return "res"
     return u
 
 
 def canon(u):
-    return LEN_ABS.get(u) or ANG.get(u) or TIME.get(u) or F(1)
+    return LEN_ABS.get(u) or ANG.get(u) or TIME.get(u) or FREQ.get(u) or RES.get(u) or F(1)
 
 
 # ---------------------------------------------------------------------------------------------
 # expression trees:  ('n', Fraction, unit) | ('o', op, l, r) | ('c', name, [args]) | ('s', id, paren)
 #                    | ('i', id) | ('p', tree) redundant parens | ('v', tree) held in a Sass variable
+#                    | ('m', num, num) a Sass variable holding `math.div(num, num)` (= `calc(num / num)`:
+#                      both are `impl Div for SassNumber`, sass_number.rs:341)
 # ---------------------------------------------------------------------------------------------
 OPS = "+-*/"
 PREC = {"+": 5, "-": 5, "*": 6, "/": 6}
@@ -91,6 +103,11 @@ class Src:
             if inner[0] == "c":
                 self.var_trees.append(inner)
             return name
+        if k == "m":
+            name = f"$v{len(self.decls)}"
+            self.decls.append(f"{name}: math.div({self.text(t[1])}, {self.text(t[2])});")
+            self.var_trees.append(("c", "calc", [("o", "/", t[1], t[2])]))
+            return name
         if k == "c":
             return t[1] + "(" + ", ".join(self.text(a) for a in t[2]) + ")"
         if k == "o":
@@ -107,6 +124,8 @@ class Src:
 def strip(t):
     while t[0] in ("p", "v"):
         t = t[1]
+    if t[0] == "m":
+        return ("o", "/", t[1], t[2])
     return t
 
 
@@ -130,6 +149,8 @@ def tree_enc(t):
         return tree_enc(inner)
     if k == "v":
         return tree_enc(t[1])
+    if k == "m":
+        return f"o / {tree_enc(t[1])} {tree_enc(t[2])}"
     if k == "c":
         return f"c {t[1]} {len(t[2])} " + " ".join(tree_enc(a) for a in t[2])
     if k == "o":
@@ -143,9 +164,44 @@ def size(t):
         return 1
     if k in ("p", "v"):
         return size(t[1])
+    if k == "m":
+        return 3
     if k == "c":
         return 1 + sum(size(a) for a in t[2])
     return 1 + size(t[2]) + size(t[3])
+
+
+def units_of(t, acc=None):
+    """the set of plain units written in the source tree"""
+    acc = set() if acc is None else acc
+    k = t[0]
+    if k == "n":
+        acc.add(t[2])
+    elif k in ("p", "v"):
+        units_of(t[1], acc)
+    elif k == "c":
+        for a in t[2]:
+            units_of(a, acc)
+    elif k == "o":
+        units_of(t[2], acc)
+        units_of(t[3], acc)
+    elif k == "m":
+        units_of(t[1], acc)
+        units_of(t[2], acc)
+    return acc
+
+
+def has_kind(t, kind):
+    k = t[0]
+    if k == kind:
+        return True
+    if k in ("p", "v"):
+        return has_kind(t[1], kind)
+    if k == "c":
+        return any(has_kind(a, kind) for a in t[2])
+    if k == "o":
+        return has_kind(t[2], kind) or has_kind(t[3], kind)
+    return False
 
 
 NATOMS = 4
@@ -174,6 +230,10 @@ class Gen:
         x = r.random()
         if x < 0.80:
             n = self.number(fam)
+            if r.random() < 0.04:
+                # math.div of two literal numbers flowing into the calculation through a variable
+                d = ("n", F(0), "") if r.random() < 0.2 else self.number("num")
+                return ("m", n, d)
             return ("v", n) if r.random() < 0.08 else n
         if x < 0.88:
             return ("s", r.randrange(NATOMS), False)
@@ -206,8 +266,10 @@ class Gen:
         elif x < 0.74:
             y = r.random()
             if fam == "num" and y < 0.3:
-                f2 = r.choice(["len", "ang", "time"])
+                f2 = r.choice(["len", "ang", "time", "freq", "res"])
                 t = ("o", "/", self.expr(f2, depth - 1), self.expr(f2, depth - 1))
+            elif y < 0.05:
+                t = ("o", "/", self.expr(fam, depth - 1), ("n", F(0), r.choice(["", "", "", "px", "s"])))   # a literal zero divisor
             elif y < 0.96:
                 t = ("o", "/", self.expr(fam, depth - 1), self.expr("num", depth - 1))
             else:
@@ -232,7 +294,10 @@ class Gen:
         return ("c", name, [self.expr(fam, depth) for _ in range(n)])
 
     def top(self, depth):
-        fam = self.rng.choice(["len", "len", "len", "ang", "time", "num"])
+        fam = self.rng.choice(["len", "len", "len", "ang", "ang", "time", "freq", "res", "num"])
+        if self.rng.random() < 0.03:
+            # `calc(L / 0)`: the zero divisor is the outermost operation, so grass prints the non-finite number itself
+            return ("c", "calc", [("o", "/", self.expr(fam, depth - 1), ("n", F(0), self.rng.choice(["", "", "px", "s"])))])
         return self.call(fam, depth)
 
 
@@ -264,7 +329,7 @@ def lex(value):
             toks.append("A:" + m.group(2))
         elif m.group(3) is not None:
             fr = F(m.group(3))
-            u = m.group(4)
+            u = m.group(4).lower()          # grass prints `Hz` / `kHz` (unit/mod.rs:288)
             if u and u not in UNITS:
                 raise Unreadable("unit " + u)
             toks.append(f"N:{fr.numerator}/{fr.denominator}:{unit_enc(u)}")
@@ -343,9 +408,9 @@ def plain_value(t):
 # environments
 # ---------------------------------------------------------------------------------------------
 def make_envs(rng, n):
-    envs = [[F(1), F(1), F(1), F(16), F(16), F(23, 10), F(91, 10)] + [F(7), F(-3), F(5, 2), F(11)]]
+    envs = [[F(1), F(1), F(1), F(16), F(16), F(23, 10), F(91, 10), F(1), F(1)] + [F(7), F(-3), F(5, 2), F(11)]]
     while len(envs) < n:
-        e = [F(rng.randint(1, 4000), rng.randint(1, 60)) for _ in range(7)]
+        e = [F(rng.randint(1, 4000), rng.randint(1, 60)) for _ in range(9)]
         e += [F(rng.randint(-900, 900) or 1, rng.randint(1, 30)) for _ in range(NATOMS)]
         envs.append(e)
     return " | ".join(" ".join(f"{x.numerator}/{x.denominator}" for x in e) for e in envs)
@@ -384,6 +449,23 @@ CORPUS = [
     # a variable may hold a number with a compound unit (never serialized); the use site reports it
     ("c", "min", [("v", ("c", "calc", [("o", "*", N(10, "turn"), N(-12, "px"))])), N(1, "px")]),
     ("c", "calc", [("o", "/", ("v", ("c", "calc", [("o", "*", N(10, "px"), N(2, "px"))])), N(4, "px"))]),
+    # round 3: the whole conversion table
+    ("c", "calc", [("o", "+", N(1, "rad"), N(1, "deg"))]),
+    ("c", "calc", [("o", "+", N(1, "q"), N(1, "pc"))]),
+    ("c", "calc", [("o", "+", N(1, "khz"), N(1, "hz"))]),
+    ("c", "calc", [("o", "+", ("o", "+", N(1, "dpi"), N(1, "dppx")), N(1, "dpcm"))]),
+    ("c", "max", [N(1, "turn"), N(399, "grad"), N("6.3", "rad")]),
+    ("c", "calc", [("o", "+", N(1, "dpi"), N(1, "px"))]),
+    ("c", "calc", [("o", "*", N(1, "hz"), N(1, "s"))]),
+    # round 3: zero divisors (grass goes on with IEEE Infinity / NaN)
+    ("c", "calc", [("o", "/", N(-1, "px"), N(0))]),
+    ("c", "calc", [("o", "/", N(0, "px"), N(0))]),
+    ("c", "calc", [("o", "/", ("o", "-", N(1, "in"), N(100, "px")), N(0))]),
+    ("c", "calc", [("o", "+", ("o", "/", N(1, "em"), N(0)), N(1, "px"))]),
+    ("c", "min", [("o", "/", N(1, "px"), N(0)), ("o", "/", N(0, "px"), N(0))]),
+    ("c", "clamp", [("o", "/", N(0, "px"), N(0)), ("o", "/", N(1, "px"), N(0)), N(3, "px")]),
+    ("c", "calc", [("o", "+", ("m", N(1, "px"), N(0)), N(1, "em"))]),
+    ("c", "calc", [("o", "+", ("m", N(1, "px"), N(4)), N(1, "px"))]),
 ]
 
 
@@ -397,7 +479,7 @@ def stylesheet(cases):
         s = Src()
         body = s.text(t)
         out.append("x{i:%d; %s v: %s}" % (idx, " ".join(s.decls), body))
-    return "\n".join(out)
+    return '@use "sass:math";\n' + "\n".join(out)
 
 
 def observe(pool, cases, batch=150):
@@ -433,13 +515,14 @@ def observe(pool, cases, batch=150):
     return res
 
 
-_CHECK = re.compile(r"ok tie=(\d) val=(\S+) defined=(\d+) reprint=(\d) specsame=(\d) spec=(\S+) css=(\d) strict=(\S+) model= (.*?) impl= (.*)$")
+_CHECK = re.compile(r"ok plain=(\d) tie=(\d) val=(\S+) defined=(\d+) reprint=(\d) specsame=(\d) spec=(\S+) css=(\d) strict=(\S+) model= (.*?) impl= (.*)$")
 
 
 def source_of(t):
     s = Src()
     body = s.text(t)
-    return "x{%sv: %s}" % ("".join(d + " " for d in s.decls), body), s.var_trees
+    use = '@use "sass:math"; ' if any("math.div" in d for d in s.decls) else ""
+    return use + "x{%sv: %s}" % ("".join(d + " " for d in s.decls), body), s.var_trees
 
 
 def evaluate(ck, pool, trees, envs, label):
@@ -464,7 +547,10 @@ def evaluate(ck, pool, trees, envs, label):
     lines, meta = [], []
     for (i, t), m in zip(cases, mouts):
         o = obs[i]
-        if o[0] == "ok" and not ("Infinity" in o[1] or "NaN" in o[1]):
+        if m == "err non-finite":
+            lines.append("calc nf now " + tree_enc(t))
+            meta.append("nonfinite" if o[0] == "ok" and ("Infinity" in o[1] or "NaN" in o[1]) else "none")
+        elif o[0] == "ok" and not ("Infinity" in o[1] or "NaN" in o[1]):
             try:
                 toks = lex(o[1])
                 lines.append(f"calc check {envs} ; {tree_enc(t)} ; " + " ".join(toks))
@@ -486,6 +572,14 @@ def evaluate(ck, pool, trees, envs, label):
         ck.count(enc, nontrivial=any(strip(a)[0] in ("o", "c") for a in t[2]))
         ck.hist(f"{label}size:{min(size(t), 16)}")
         ck.hist("top:" + t[1])
+        us = units_of(t)
+        for u in us & NEW_UNITS:
+            ck.hist("unit:" + u)
+        fams = {group(u) for u in us if u}
+        for fm in fams & {"ang", "time", "freq", "res", "abs"}:
+            ck.hist("family:" + fm)
+        if has_kind(t, "m"):
+            ck.hist("source:math.div-in-variable")
         base = {"source": src, "tree": enc, "model": m, "impl": list(o)[:3]}
         if i % 701 == 0:
             ck.sample({"source": src, "impl": o[1] if len(o) > 1 else o[0], "model": m[:160]})
@@ -502,7 +596,14 @@ def evaluate(ck, pool, trees, envs, label):
         # ---- division by zero: the real code goes on with +-Infinity / NaN (IEEE), the model stops; the
         #      source denotes no finite quantity, so there is nothing to preserve.  Only "no panic" applies.
         if m == "err non-finite":
-            ck.hist("model:non-finite(outside the model):impl:" + ("nonfinite-text" if how == "nonfinite" else o[0]))
+            ck.hist("model:non-finite(zero divisor):impl:" + ("nonfinite-text" if how == "nonfinite" else o[0]))
+            # `calc(L / 0)` with a literal zero: the Lean `nonFiniteTop` gives class and unit of what grass prints
+            nf = d.split()
+            if nf[0] == "ok" and "*" not in nf[2] and "/" not in nf[2] and not (nf[1] == "NaN" and nf[3] != "1"):
+                want = nf[1] + {"-": "", "hz": "Hz", "khz": "kHz"}.get(nf[2], nf[2])
+                ck.hist("nonfinite:top:" + nf[1])
+                if o[0] != "ok" or o[1].strip() != want:
+                    disagree(ck, dict(base, want=want))
             continue
         # ---- error cases by class -------------------------------------------------------------
         if o[0] == "err":
@@ -527,7 +628,7 @@ def evaluate(ck, pool, trees, envs, label):
             disagree(ck, base)
             failures.append(dict(base, why="output not parsed by the calc grammar: " + d[:80], tags=[]))
             continue
-        tie, val, defined, reprint, specsame, spec, cssame, strict, model, impl = mm.groups()
+        plain, tie, val, defined, reprint, specsame, spec, cssame, strict, model, impl = mm.groups()
         base["driver"] = d[:400]
         ck.hist("impl:ok:" + ("number" if impl.startswith("n ") else "calculation"))
         ck.hist(f"envs-defined:{defined}")
@@ -553,6 +654,13 @@ def evaluate(ck, pool, trees, envs, label):
         elif "D41-unitless-accepted" in tags:
             ck.hist("D41-unitless-accepted")
             failures.append(dict(base, why="provably incompatible operands (unitless with a unit) accepted", tags=tags))
+        # (c'') the Lean predicate `plain` (hypothesis of C16_known_units_reduce/_value) on the source: grass's
+        #       own output must then be a plain number (its value is judged by `val` above)
+        if plain == "1":
+            ck.hist("lean-plain(known convertible units)")
+            if not impl.startswith("n "):
+                failures.append(dict(base, why="known, mutually convertible units (Lean `plain`) but the output is not a plain number",
+                                     tags=[]))
         # (c') model-independent: known convertible units => the plain number exact arithmetic gives
         try:
             v, g = plain_value(t)
@@ -581,7 +689,7 @@ def gen_textual(rng):
     def operand():
         x = rng.random()
         if x < 0.75:
-            n = g.number(rng.choice(["len", "len", "num", "ang", "time"]))
+            n = g.number(rng.choice(["len", "len", "num", "ang", "time", "freq", "res"]))
             return dec(n[1]) + n[2]
         return f"var(--a{rng.randrange(NATOMS)})"
 
@@ -660,12 +768,15 @@ def disagree(ck, base):
         ck.disagreements.append(base)
 
 
-TABLE_RE = re.compile(r"from_(\w+)\.insert\(Unit::(\w+),\s*([^)]*)\);")
-RUST_UNIT = {"In": "in", "Cm": "cm", "Mm": "mm", "Pt": "pt", "Px": "px", "Deg": "deg", "Turn": "turn", "S": "s", "Ms": "ms"}
+TABLE_RE = re.compile(r"from_(\w+)\.insert\(Unit::(\w+),\s*([^;]*)\);")
+RUST_UNIT = {"In": "in", "Cm": "cm", "Mm": "mm", "Pt": "pt", "Px": "px", "Deg": "deg", "Turn": "turn", "S": "s", "Ms": "ms",
+             "Q": "q", "Pc": "pc", "Grad": "grad", "Rad": "rad", "Hz": "hz", "Khz": "khz", "Dpi": "dpi", "Dpcm": "dpcm",
+             "Dppx": "dppx"}
+TABLE_ROWS = 82          # every `insert` of UNIT_CONVERSION_TABLE (49 lengths, 16 angles, 4 times, 4 frequencies, 9 resolutions)
 
 
 def table_tie(ck):
-    """the Lean `table` against unit/conversion.rs, entry by entry (exact rationals; `PI` rows are outside the model)."""
+    """the Lean `table` against unit/conversion.rs, entry by entry (exact rationals; `PI` is the f64 constant, exactly)."""
     path = os.path.join(REPO, "crates/compiler/src/unit/conversion.rs")
     try:
         text = open(path).read()
@@ -676,15 +787,15 @@ def table_tie(ck):
     for to, frm, expr in TABLE_RE.findall(text):
         to_u = RUST_UNIT.get(to.capitalize())
         frm_u = RUST_UNIT.get(frm)
-        if not to_u or not frm_u or "PI" in expr:
+        if not to_u or not frm_u:
             continue
-        val = eval(re.sub(r"(\d+\.\d+|\d+)", lambda m: f"F('{m.group(1)}')", expr), {"F": F})
+        val = eval(re.sub(r"(\d+\.\d+|\d+)", lambda m: f"F('{m.group(1)}')", expr), {"F": F, "PI": PI_F})
         rows.append((to_u, frm_u, val))
     outs = driver([f"calc table {t} {f}" for t, f, _ in rows])
     bad = [(t, f, str(v), o) for (t, f, v), o in zip(rows, outs) if o != "ok " + (str(v.numerator) if v.denominator == 1 else f"{v.numerator}/{v.denominator}")]
     ck.hist("table-entries", len(rows))
-    ck.cov["translator_ok"] = not bad and len(rows) >= 33
-    if bad or len(rows) < 33:
+    ck.cov["translator_ok"] = not bad and len(rows) >= TABLE_ROWS
+    if bad or len(rows) < TABLE_ROWS:
         ck.cov["model_disagreements"] += 1
         ck.disagreements.append({"table": bad[:5], "rows": len(rows)})
 
@@ -693,9 +804,10 @@ def run(tier, seed):
     ck = Check("C16", tier, seed)
     ck.disagreements = []
     ck.cov["rule"] = ("family-directed random calculation expressions (length/angle/time/unitless; ~6% deliberately mixed) of "
-                      "depth <= 4 over + - * / with px in cm mm pt em rem vw % deg turn s ms and unitless numbers, nested "
-                      "calc/min/max/clamp, var(), parenthesised interpolation, Sass variables holding numbers/calculations/"
-                      "strings, redundant parentheses; one `x{i:N; v: <expr>}` rule per case. Distinct by the encoded tree; "
+                      "depth <= 4 over + - * / with every unit of the conversion table (px in cm mm q pt pc, deg grad rad turn, "
+                      "s ms, Hz kHz, dpi dpcm dppx), em rem vw % and unitless numbers, nested calc/min/max/clamp, var(), "
+                      "parenthesised interpolation, Sass variables holding numbers/calculations/strings/math.div results, "
+                      "literal zero divisors (~4% of divisions, 3% as the outermost operation), redundant parentheses; one `x{i:N; v: <expr>}` rule per case. Distinct by the encoded tree; "
                       "non-trivial when it contains an operation or a nested calculation.")
     ck.assumptions = ["grass observed through its printed value, lexed by tools/props/c16.py and parsed by the Lean reader `parseToks`",
                       "printed numbers carry an absolute error <= 6e-11 + 1e-12*|x| (10 fractional digits, f64 arithmetic)",
